@@ -59,6 +59,10 @@ type cursorTokenData struct {
 	CreatedAt int64
 	CallID    string // the call token this cursor belongs to
 	State     interface{}
+	// Method is the stream method whose state this is. A continuation is
+	// only accepted on that method's route: the state type, schemas and
+	// handler code of another method must never run on it.
+	Method string
 }
 
 // resolvedCall is what an authenticated CallID resolves to — either from the
@@ -462,10 +466,16 @@ func (h *HttpServer) packCallToken(callID string, outputSchema *arrow.Schema, au
 // packCursorToken seals the advancing half. Re-minted every turn; this is
 // the only token a response returns.
 func (h *HttpServer) packCursorToken(callID string, state interface{}, auth *AuthContext) ([]byte, error) {
+	return h.packCursorTokenFor("", callID, state, auth)
+}
+
+// packCursorTokenFor is packCursorToken for a cursor bound to a stream method.
+func (h *HttpServer) packCursorTokenFor(method, callID string, state interface{}, auth *AuthContext) ([]byte, error) {
 	data := cursorTokenData{
 		CreatedAt: time.Now().Unix(),
 		CallID:    callID,
 		State:     state,
+		Method:    method,
 	}
 	return h.sealToken(cursorTokenVersion, &data, stateTokenAad(auth))
 }
